@@ -177,6 +177,8 @@ def uffm_params(src):
 def build(reg, src):
     from contracts import c16_tables
     reg.extra_checks.append(c16_tables.table_merge_check)
+    from contracts import c16_alias
+    reg.extra_checks.append(c16_alias.table_ownership_check)
     reg.assumptions += [
         "single client: a submitted task runs when its submitter waits for it, after the lock was released (C18 drops this)",
         "ghost file model of contracts/fsmodel.py; no other process writes into the store directory; os.path.join injective on normalised keys",
